@@ -9,6 +9,7 @@ mod ranges;
 mod session;
 mod store;
 mod subs;
+mod syncer;
 mod syncrange;
 mod windowsearch;
 
@@ -25,6 +26,7 @@ fn main() {
         ("record", "session") => session::record(&args),
         ("replay", "vrange") => session::replay_vrange(&args),
         ("record", "subs") => subs::record(&args),
+        ("record", "syncer") => syncer::record(&args),
         ("record", "store") => store::record(&args),
         _ => tool_error(&format!("unknown mode/model {mode}/{model}")),
     }
